@@ -58,17 +58,23 @@ def expand_task(t):
     snap = None
     hits = {}
     try:
+        applied = []          # operations already applied to the current session (they left the state key unchanged)
         for op in ops:
             try:
                 if s is None:
                     s = _fresh(factory, params, history, base_key)
                     snap = s.snapshot() if hasattr(s, 'snapshot') else None
+                    applied = []
                 elif snap is not None:
                     s.restore(snap)
                 vs = s.apply(op)
-                k = s.key()
+                # a transition that already violates the property is reported as such; its successor state is not
+                # explored, so the state key (which walks implementation structures that may be damaged) is not taken
+                k = None if any(not getattr(v, 'resynced', False) for v in vs) else s.key()
             except HarnessDied as e:
-                results.append((op, None, [crash_violation(e, {'history': history + [op], 'params': params}).to_json()], None, None))
+                # the session may have gone through earlier operations that looked like self-loops but left hidden damage
+                # behind (a dangling pointer): the replayable case contains them too
+                results.append((op, None, [crash_violation(e, {'history': history + applied + [op], 'params': params}).to_json()], None, None))
                 try:
                     if s is not None:
                         s.died()
@@ -78,14 +84,16 @@ def expand_task(t):
                 continue
             for v in vs:
                 v.case = {'history': history + [op], 'params': params}
-            results.append((op, k, [v.to_json() for v in vs], s.obs_digest() if hasattr(s, 'obs_digest') else None, s.ops()))
+            results.append((op, k, [v.to_json() for v in vs], s.obs_digest() if hasattr(s, 'obs_digest') else None, s.ops() if k is not None else []))
             for kk, vv in getattr(s, 'hits', {}).items():
                 hits[kk] = hits.get(kk, 0) + vv
             if hasattr(s, 'hits'):
                 s.hits = {}
-            if k != base_key or vs:
+            if k is None or k != base_key or vs:
                 s.close()
                 s = None
+            else:
+                applied.append(op)
     except ReplayDiverged as e:
         return {'diverged': str(e), 'history': history, 'ops': ops}
     finally:
